@@ -25,7 +25,7 @@ PROG = ["        NAM PROG", "        ORG $0E00", "START   LDA #1", "        RTS"
 PROG_BYTES = bytes([0x86, 0x01, 0x39])
 SRC_FILE = c07.fspec("ML", 40, "SRCFILE", pat="ramp7", load=0x3000, exec_=0x3005)
 
-TARGETS = ["absent", "empty", "cas1", "cas2", "dskblank", "dsk1", "rawbin", "bytes", "bytes553c", "casbig", "zeros", "all55", "allFF", "casodd", "dsk67", "dskholes", "dskemptyml", "casbig00"]
+TARGETS = ["absent", "empty", "cas1", "cas2", "dskblank", "dsk1", "rawbin", "bytes", "bytes553c", "casbig", "zeros", "all55", "allFF", "casodd", "dsk67", "dskholes", "dskemptyml", "casbig00", "dsktext"]
 SWITCHES = ["bin", "cas", "dsk"]
 CLIS = ["asm", "fu.cas", "fu.dsk"]
 
@@ -60,6 +60,10 @@ def make_target(kind):
             if len(b) > dskfs.IMAGE_SIZE and all(x in (0x00, 0xFF) for x in b[dskfs.DIR_OFF:dskfs.DIR_OFF + 72 * 32:32]):
                 return b
         raise AssertionError("no such tape")
+    if kind == "dsktext":     # a valid disk holding a machine-language file and a type-3 (text) ASCII file
+        return dskfs.write([{"name": "PROGRAM", "ext": "BIN", "type": 2, "dtype": 0, "stream": dskfs.make_stream("ml", C.pattern(40, "ramp"), 0x1000, 0x1000), "chain": [32]},
+                            {"name": "README", "ext": "TXT", "type": 3, "dtype": 0xFF, "stream": dskfs.make_stream("ascii", C.pattern(300, "ramp7"), 0, 0), "chain": [33]},
+                            {"name": "DATAFILE", "ext": "DAT", "type": 1, "dtype": 0xFF, "stream": dskfs.make_stream("ascii", C.pattern(20, "55"), 0, 0), "chain": [34]}])
     if kind == "dskemptyml":  # a valid disk holding a machine-language file without data (what assembling a program that emits no bytes leaves)
         return dskfs.write([{"name": "NOBYTES", "ext": "BIN", "type": 2, "dtype": 0, "stream": dskfs.make_stream("ml", b"", 0x0E00, 0x0E00), "chain": [33]},
                             {"name": "SECOND", "ext": "BIN", "type": 2, "dtype": 0, "stream": dskfs.make_stream("ml", C.pattern(20, "ramp"), 0x1000, 0x1000), "chain": [32]}])
